@@ -199,6 +199,15 @@ FAMILIES = {
 GRIDS = {"uniform": [0.0, 0.5, 1.0, 1.5], "ragged": [0.0, 0.01, 0.7, 0.75, 1.9], "decreasing": [1.0, 0.6, 0.55, -0.2], "two": [0.3, 0.9], "long": [0.0, 4.0]}
 
 
+def rk_step_ref(func, t0, y0, f0, h, A, B, C):
+    """one explicit RK step with the tableau (A, B, C), written independently of the library"""
+    ks = [f0]
+    for s_ in range(1, len(C)):
+        yi = y0 + h * sum(A[s_][j] * ks[j] for j in range(s_))
+        ks.append(func(t0 + C[s_] * h, yi))
+    return y0 + h * sum(B[j] * ks[j] for j in range(len(B)))
+
+
 class TrySink(object):
     def __init__(self, ts_internal):
         self.ev = []
@@ -222,11 +231,19 @@ class TrySink(object):
         else:
             grow = "down" if h_out < hstep else ("same" if h_out == hstep else "up")
             fac_ok = h_out >= hstep * sol.min_factor * (1 - 1e-12)
+        # every trial is one step of the declared scheme from (t0, y0) with first stage f(t0, y0) (FSAL re-use must be the true derivative)
+        func = sol.func
+        with torch.no_grad():
+            f_true = func(f["t0"], f["y0"])
+            y_ref = rk_step_ref(func, f["t0"], f["y0"], f_true, f["hstep"], sol.A.tolist(), sol.B.tolist(), sol.C.tolist())
+            sc = 1.0 + float(f["y0"].abs().max())
+            stage_ok = bool(torch.allclose(f["f0"], f_true, atol=1e-12 * sc, rtol=1e-12)) and bool(torch.allclose(f["ynew"], y_ref, atol=1e-12 * sc, rtol=1e-12)) \
+                and bool(torch.allclose(f["fnew"], func(f["tnew"], f["ynew"]), atol=1e-12 * sc, rtol=1e-12))
         if acc:
             self.naccept += 1
         slack = 4 * 2.3e-16 * max(1.0, abs(t0), abs(t1))       # t0 + (t1 - t0) may differ from t1 by a rounding error
         self.ev.append({"a": "try", "tgt": tgt, "accept": acc, "over": over, "grow": grow, "prev_rejected": bool(f["prev_rejected"]),
-                        "landed_exact": (abs(tnew - t1) <= slack) if over else True, "factor_ok": bool(fac_ok), "not_past": tnew <= t1 + slack})
+                        "stage_ok": stage_ok, "landed_exact": (abs(tnew - t1) <= slack) if over else True, "factor_ok": bool(fac_ok), "not_past": tnew <= t1 + slack})
 
 
 def adaptive_case(tid, method, fam, gridname, atol, rtol):
